@@ -62,6 +62,10 @@ def check(run):
         specs.append(norm(('task', 'f', [('fset', [('str', w) for w in words]), ('set', [('str', w) for w in words])],
                            [['a', ('dict', [[('str', w), ('tuple', [('fset', [('str', w), ('int', 1)]), ('int', 2)])] for w in words])]])))
         specs.append(norm(('task', 'g', [hm.gen_array(rng), ('ndobj', [2], [('str', words[0]), ('fset', [('str', w) for w in words])])], [])))
+        # unordered containers of elements that have no total order of their own (frozensets are only partially ordered by `<`,
+        # tuples containing them likewise): any shortcut that sorts the elements themselves depends on the iteration order
+        specs.append(norm(('task', 'f', [('set', [('fset', [('str', w)]) for w in words]), ('fset', [('fset', [('str', w), ('int', i)]) for i, w in enumerate(words)])],
+                           [['a', ('set', [('tuple', [('fset', [('str', w)]), ('int', 0)]) for w in words])]])))
     # values that compare equal in Python but are different values (True/1/1.0, 0.0/-0.0/False/0, tuples thereof) as set elements and
     # dict keys: whatever a process has hashed before must not leak into a later identifier
     ones = [('bool', True), ('int', 1), ('float', (1.0).hex())]
